@@ -15,7 +15,7 @@ ID = "C13"
 LEVEL = "exploration"
 BUDGET = {"quick": (8, 30), "thorough": (16, 800)}
 K = 2
-RULE = ("Model-based history testing: a generated OCP and a generated sequence (3..12 steps) over set_value, set_initial, subject_to, clear_constraints, add_objective, method (class/N/M/grid change), "
+RULE = ("Model-based history testing: a generated OCP and a generated sequence (3..12 steps) over set_value, set_initial, subject_to, clear_constraints, add_objective (on the OCP and, when there is one, on its sub-stage), method (class/N/M/grid change), "
         "solver (options change), set_T, set_t0, sample, value, jacobian, sub-stage sample and limited solves is applied to the real OCP and mirrored on a JSON model spec. After every query/solve "
         "and at the end: objective, constraint-row multiset, parameter vector and starting point of the evolved OCP equal those of a fresh build of the model spec at random decision vectors; "
         "two consecutive queries give identical data; declared lists (states, controls, variables, declared constraints, objective, horizon declaration) equal the fresh untranscribed build's; "
@@ -52,11 +52,12 @@ def strategy_(draw):
     roots_live = any(c.get("grid") == "integrator_roots" for c in sp["constraints"])
     sp["initial"] = []
     sp["solver"] = ["ipopt", {"ipopt.max_iter": draw(st.integers(0, 3))}]
-    has_sub = draw(st.integers(0, 3)) == 0
+    has_sub = draw(st.integers(0, 2)) == 0
     if has_sub:
         sp["substages"] = [{"name": "s1", "t0": ["num", 0.0], "T": ["num", 1.0], "states": [{"name": "s1x0", "rows": 1, "cols": 1}], "controls": [{"name": "s1u0", "rows": 1, "cols": 1}],
-                            "params": [], "vars": [], "algebraics": [], "der": [["s1x0", [["-", E.S("s1u0"), E.S("s1x0")]]]],
-                            "method": {"cls": "MS", "N": 2, "M": 1, "intg": "rk", "grid": {"cls": "uniform"}}, "objective": [["int", ["sq", E.S("s1u0")]]],
+                            "params": [{"name": "s1p0", "rows": 1, "cols": 1, "grid": "", "value": [[draw(gen.small())]]}], "vars": [], "algebraics": [],
+                            "der": [["s1x0", [["-", E.S("s1u0"), E.S("s1x0")]]]],
+                            "method": {"cls": "MS", "N": 2, "M": 1, "intg": "rk", "grid": {"cls": "uniform"}}, "objective": [["int", ["sq", ["-", E.S("s1u0"), E.S("s1p0")]]]],
                             "constraints": [{"lhs": [["at_t0", E.S("s1x0")]], "rel": "==", "rhs": [E.C(0.5)], "grid": None}]}]
     ops = []
     n = draw(st.integers(3, 12))
@@ -66,8 +67,14 @@ def strategy_(draw):
             q = gen.weighted(draw, QUERIES if has_sub else QUERIES[:-1])
             ops.append([q])
             continue
-        kind = gen.weighted(draw, MUTATORS)
-        if kind == "set_value":
+        kind = gen.weighted(draw, MUTATORS + ([("sub_set_value", 2), ("sub_subject_to", 1), ("sub_add_objective", 1)] if has_sub else []))
+        if kind == "sub_set_value":
+            ops.append(["sub_set_value", draw(gen.small())])
+        elif kind == "sub_subject_to":
+            ops.append(["sub_subject_to", {"lhs": [E.S("s1x0")], "rel": draw(st.sampled_from(["<=", ">="])), "rhs": [E.C(draw(gen.small()))], "grid": None, "include_first": False, "include_last": True}])
+        elif kind == "sub_add_objective":
+            ops.append(["sub_add_objective", ["*", E.C(draw(gen.small())), ["at_tf", ["sq", E.S("s1x0")]]]])
+        elif kind == "set_value":
             cands = [d for d in sp["params"] if not d["name"].startswith("hp_")]
             if not cands:
                 continue
@@ -107,6 +114,12 @@ def strategy_(draw):
             ops.append(["set_T", draw(st.sampled_from([0.5, 1.0, 1.5, 2.0]))])
         elif kind == "set_t0":
             ops.append(["set_t0", draw(st.sampled_from([0.0, 0.5, -1.0]))])
+    cands_ = [d for d in sp["params"] if not d["name"].startswith("hp_")]
+    ctrl_ = [d for d in syms if d in sp["controls"]]
+    if cands_ and ctrl_ and draw(st.integers(0, 2)) == 0:
+        # query, new parameter value, unrelated initial guess, query: both edits must be honoured together
+        d = draw(st.sampled_from(cands_))
+        ops += [["sample"], ["set_value", d["name"], [draw(gen.small()) for _ in range(d["rows"] * d["cols"])]], ["set_initial", ctrl_[0]["name"], draw(gen.small())]]
     ops.append(["jacobian"])
     return {"spec": sp, "ops": ops, "rng": draw(st.integers(0, 2**31 - 1))}
 
@@ -239,6 +252,17 @@ def check(case, ctx):
             val = param_value_for(d, op[2], N)
             apply_value(B, ocp, op[1], val)
             d["value"] = val
+        elif kind == "sub_set_value":
+            apply_value(B, B.stages["s1"], "s1p0", [[op[1]]])
+            model["substages"][0]["params"][0]["value"] = [[op[1]]]
+        elif kind == "sub_subject_to":
+            B.stage = B.stages["s1"]
+            apply_constraint(B, B.stages["s1"], op[1])
+            model["substages"][0]["constraints"].append(op[1])
+        elif kind == "sub_add_objective":
+            B.stage = B.stages["s1"]
+            B.stages["s1"].add_objective(E.to_ca(op[1], B, B.stages["s1"]))
+            model["substages"][0]["objective"].append(op[1])
         elif kind == "set_initial":
             apply_initial(B, ocp, [op[1], ["num", op[2]]])
             model["initial"] = [it for it in model["initial"] if it[0] != op[1]] + [[op[1], ["num", op[2]]]]
